@@ -1731,6 +1731,8 @@ class Engine:
                 if side:
                     outs.append((st2, Raised(self.make_exc('IndexError', node=node))))
             return outs
+        if obj.k == 'obj' and self.contract.opts.get('opaque_algebra'):
+            return [(st, V('obj', oid='item!%d' % next(self.counter)))]
         raise Unsupported(node, 'subscript of %r' % (obj,))
 
     def get_slice(self, obj, sl, st, node):
@@ -1752,6 +1754,14 @@ class Engine:
             lo = cidx(sl.lower, None)
             hi = cidx(sl.upper, None)
             return [(st, V(obj.k, items=obj.items[lo:hi]))]
+        if obj.k == 'obj' and self.contract.opts.get('opaque_algebra'):
+            outs = []
+            for part in (sl.lower, sl.upper):
+                if part is not None:
+                    for st1, v in self.eval(part, st):
+                        if isinstance(v, Raised):
+                            outs.append((st1, v))
+            return outs + [(st, V('obj', oid='slice!%d' % next(self.counter)))]
         raise Unsupported(node, 'slice of %r' % (obj,))
 
     def set_item(self, obj, idx, v, st, node):
@@ -1812,6 +1822,12 @@ class Engine:
             r = h(self, f, args, kwargs, st, node)
             if r is not None:
                 return r
+        if f.k == 'obj' and self.contract.opts.get('opaque_algebra'):
+            # calling an opaque object: opaque result, or some Exception
+            bad = st.fork()
+            st.trace.append(('opaque-call', f.oid))
+            return [(st, V('obj', oid='res!%d' % next(self.counter))),
+                    (bad, Raised(self.make_exc('ValueError', node=node)))]
         if f.k == 'class':
             return self.call_class(f, args, kwargs, st, node)
         if f.k != 'func':
